@@ -25,3 +25,5 @@ func vCatch(f func()) (bool, string)                 { panic("intrinsic") }
 func vConcretize(v int64) int64                      { panic("intrinsic") }
 func vUF3(name string, a, b, c int64) float64        { panic("intrinsic") }
 func vKnown(key string, c bool)                      { panic("intrinsic") }
+func vWideEq(hi, lo, t2, t1, t0 uint64) bool          { panic("intrinsic") }
+func vMul128Check(a, b, hi, lo uint64) bool            { panic("intrinsic") }
